@@ -1,5 +1,6 @@
 import LexVerif.Spec.ParseInt
 import LexVerif.Proof.ParseIntMain
+import LexVerif.Proof.ParseIntSwar
 /-!
 # C04 — string→integer parsing is exact with exact overflow detection (property theorems)
 -/
@@ -49,7 +50,7 @@ theorem spec_index_le_length (t : IntTy) (r : Nat) (p : Bool) (s : List Nat) :
 open LexVerif.Model LexVerif.Model.ParseInt LexVerif.Proof.ParseInt
 
 /-- The full statement of C04 on the model: for each of the 12 integer types (10 distinct (bits, signed) pairs;
-`usize/isize` are 64-bit), every radix 2..36 the feature set admits (`power-of-two`/`radix` builds: any;
+`usize/isize` are 64-bit), every radix 2..36 the feature set allows (`power-of-two`/`radix` builds: any;
 otherwise the format validator only lets radix 10 through), both parsers, both `no_multi_digit` settings
 and every byte string, the model returns exactly what the left-to-right scan of the specification
 returns (in particular never `FAULT`). -/
@@ -80,6 +81,33 @@ theorem parseInt_model_eq_spec_noMulti (feats : Features) (t : IntTy) (ht : IsIn
     (hr : r ≤ 36) (partial_ : Bool) (s : List Nat) (hs : ∀ b ∈ s, b < 256) :
     Model.ParseInt.parseInt feats t r partial_ true s = .done (Spec.parseInt t r partial_ s) :=
   parseInt_eq_spec_of feats t ht h2 hr partial_ true (by simp) s hs
+
+/-- **C04 on the model, unconditional**: for each of the 12 integer types, every radix 2..36 accepted by the
+feature set, `parse` and `parse_partial`, `no_multi_digit` on and off, and every byte string, the model of
+`algorithm.rs` (wrapping prefix of `overflow_digits` digits incl. the 4/8-digit SWAR loops, then the
+`checked_mul`/`checked_add|sub` tail) returns exactly the result of the specification's exact left-to-right scan. -/
+theorem parseInt_model_eq_spec (feats : Features) (t : IntTy) (ht : IsIntTy t) (r : Nat) (h2 : 2 ≤ r)
+    (hr : r ≤ 36) (hfeat : feats.powerOfTwo = true ∨ r = 10)
+    (partial_ noMulti : Bool) (s : List Nat) (hs : ∀ b ∈ s, b < 256) :
+    Model.ParseInt.parseInt feats t r partial_ noMulti s = .done (Spec.parseInt t r partial_ s) :=
+  parseInt_model_eq_spec_partial feats t ht r h2 hr hfeat (fun h10 => swarCorrect h2 h10) partial_ noMulti s hs
+
+theorem parseInt_model_eq_spec_full_holds : parseInt_model_eq_spec_full :=
+  fun feats t ht r h2 hr hfeat p nm s hs => parseInt_model_eq_spec feats t ht r h2 hr hfeat p nm s hs
+
+/-- the SWAR kernels are correct for every radix that can reach them -/
+theorem swar_correct (r : Nat) (h2 : 2 ≤ r) (h10 : r ≤ 10) : SwarCorrect r := swarCorrect h2 h10
+
+/-- `overflow_digits(radix)` digits never leave the positive range of the type -/
+theorem overflowDigits_is_safe (t : IntTy) (ht : IsIntTy t) (r : Nat) (h2 : 2 ≤ r) (hr : r ≤ 36) :
+    r ^ overflowDigits t r ≤ t.maxMag false + 1 := overflowDigits_safe t ht h2 hr
+
+/-- consequences for the model: no unchecked access goes out of bounds, and no reported index exceeds the input length -/
+theorem model_no_fault_index_le (feats : Features) (t : IntTy) (ht : IsIntTy t) (r : Nat) (h2 : 2 ≤ r)
+    (hr : r ≤ 36) (hfeat : feats.powerOfTwo = true ∨ r = 10)
+    (partial_ noMulti : Bool) (s : List Nat) (hs : ∀ b ∈ s, b < 256) :
+    ∃ res, Model.ParseInt.parseInt feats t r partial_ noMulti s = .done res ∧ PRes.index res ≤ s.length :=
+  ⟨_, parseInt_model_eq_spec feats t ht r h2 hr hfeat partial_ noMulti s hs, spec_index_le_length t r partial_ s⟩
 
 /-- non-vacuity: the model reports `Overflow` at the digit where the value leaves the range -/
 example : Model.ParseInt.parseInt {} ⟨8, false⟩ 10 false false [50, 53, 54] = .done (.overflow 2) := by decide
